@@ -56,6 +56,15 @@ def drive(coro):
     raise AssertionError('Notifications coroutine suspended')
 
 
+class Gate:
+    '''Awaited by the harness's notify function when it is to suspend (the real one,
+    SessionManager._notify_sessions, reads a header in a worker thread and waits for every
+    session): the calling coroutine stops here until the harness resumes it.'''
+
+    def __await__(self):
+        yield self
+
+
 class Env:
     '''Automaton state + the real Notifications object + the obligations ledger.'''
 
@@ -63,7 +72,7 @@ class Env:
                  'fork', 'delivered', 'must_start', 'blocktok', 'tok', 'calls', 'owed',
                  'seen_mp', 'seen_bp', 'last_m', 'last_b', 'error', 'flags', 'reported',
                  'unmatched_reports', 'in_start', 'epoch', 'mp_epoch', 'last_m_epoch', 'last_call',
-                 'downs')
+                 'downs', 'async_mode', 'susp', 'suspend_bits', 'running_start')
 
     def __init__(self, warm=True):
         self.n = Notifications()
@@ -88,6 +97,10 @@ class Env:
         self.pend = set()
         self.fork = 0
         self.downs = 0
+        self.async_mode = False     # walks only: notify may suspend, calls of the three sources
+        self.susp = {}              # interleave; source ('bp' / 'mp' / 'start') -> coroutine
+        self.suspend_bits = ()
+        self.running_start = False
         self.rn = 0
         self.mp = None
         if warm:
@@ -118,6 +131,7 @@ class Env:
                   'delivered', 'must_start', 'tok', 'calls', 'last_m', 'last_b', 'error',
                   'flags', 'in_start', 'epoch', 'mp_epoch', 'last_m_epoch', 'last_call', 'downs'):
             setattr(e, a, getattr(self, a))
+        e.async_mode, e.susp, e.suspend_bits, e.running_start = False, {}, (), False
         e.pend = set(self.pend)
         e.blocktok = dict(self.blocktok)
         e.owed = dict(self.owed)
@@ -131,6 +145,8 @@ class Env:
 
     # ---- calls into the real object -------------------------------------------------------
     async def on_notify(self, height, touched):
+        if self.async_mode:
+            return await self.on_notify_async(height, touched)
         if self.in_start:
             return      # start()'s own initial notify(height, set()) is the start-up itself
         if height not in self.seen_mp or height not in self.seen_bp:
@@ -139,6 +155,33 @@ class Env:
                           f'({height})', 'early_notify')
         for t in touched:
             self.owed.pop(t, None)
+
+    async def on_notify_async(self, height, touched):
+        if not self.running_start:
+            if height not in self.seen_mp or height not in self.seen_bp:
+                self.error = (f'notify({height}) without an earlier '
+                              f'{"on_mempool" if height not in self.seen_mp else "on_block/start"}'
+                              f'({height})', 'early_notify')
+            for t in touched:
+                self.owed.pop(t, None)
+        bits = self.suspend_bits
+        if bits and bits[self.calls % len(bits)]:
+            await Gate()
+
+    def step(self, src, co):
+        '''Run a source's coroutine until it completes or suspends in notify.'''
+        self.running_start = src == 'start'
+        try:
+            co.send(None)
+        except StopIteration:
+            self.susp.pop(src, None)
+        except Exception as e:
+            self.susp.pop(src, None)
+            self.error = (f'{src} call raised {e!r}', 'raised')
+        else:
+            self.susp[src] = co
+        finally:
+            self.running_start = False
 
     def fresh(self):
         self.tok += 1
@@ -166,6 +209,10 @@ class Env:
             for t in tokens:
                 self.owed[t] = self.calls
         before = self.pending_tokens() | tokens
+        if self.async_mode:
+            self.step('bp' if method == 'on_block' else 'mp',
+                      getattr(self.n, method)(tokens, height))
+            return
         try:
             drive(getattr(self.n, method)(tokens, height))
         except Exception as e:
@@ -184,6 +231,10 @@ class Env:
         self.must_start = False
         self.seen_bp.add(self.d)
         self.calls += 1
+        if self.async_mode:
+            self.last_b = self.d
+            self.step('start', self.n.start(self.d, self.on_notify))
+            return
         self.in_start = True
         drive(self.n.start(self.d, self.on_notify))
         self.in_start = False
@@ -214,6 +265,26 @@ class Env:
 
     # ---- moves --------------------------------------------------------------------------------
     def moves(self):
+        if self.async_mode:
+            return self.moves_async()
+        return self.moves_sync()
+
+    def moves_async(self):
+        '''A source whose call is suspended in notify can do nothing else until it is resumed.'''
+        out = [('resume', src) for src in sorted(self.susp)]
+        for mv in self.moves_sync():
+            kind = mv[0]
+            if 'bp' in self.susp and kind in ('poll', 'advance', 'detect', 'force', 'backup',
+                                              'report'):
+                continue
+            if 'mp' in self.susp and kind in ('arm', 'deliver'):
+                continue
+            if 'start' in self.susp and kind == 'start':
+                continue
+            out.append(mv)
+        return out
+
+    def moves_sync(self):
         if self.must_start:
             out = [('start',)]
             if self.bp == 'pending':
@@ -268,7 +339,11 @@ class Env:
 
     def _apply(self, mv):
         kind = mv[0]
-        if kind == 'up':
+        if kind == 'resume':
+            co = self.susp.get(mv[1])
+            if co is not None:
+                self.step(mv[1], co)
+        elif kind == 'up':
             self.D += mv[1]
         elif kind == 'fork':
             self.fork = mv[1]
@@ -351,10 +426,15 @@ class Env:
             raise AssertionError(mv)
 
 
-def run_trace(moves, warm=True, lenient=True):
+def run_trace(moves, warm=True, lenient=True, suspend_bits=None):
     '''Replay a move list (from DFS or Hypothesis).  In lenient mode a move that is not enabled
-    is replaced by the enabled move with the same index modulo the number enabled.'''
-    env = Env(warm)
+    is replaced by the enabled move with the same index modulo the number enabled.  With
+    suspend_bits the notify function suspends where the bits say and the sources' calls
+    interleave (no cloning: walks only).'''
+    env = Env(warm and suspend_bits is None)
+    if suspend_bits is not None:
+        env.async_mode = True
+        env.suspend_bits = tuple(suspend_bits)
     applied = []
     for mv in moves:
         enabled = env.moves()
@@ -467,7 +547,31 @@ def walk_body(ctx):
     return body
 
 
+def walk_async_body(ctx):
+    def body(case):
+        choices, bits = case
+        env, applied = run_trace(choices, False, suspend_bits=bits)
+        interleaved = any(m[0] == 'resume' for m in applied)
+        ctx.record(case={'moves': applied, 'bits': bits}, nontrivial=interleaved,
+                   classes=['walk_async'] + (['walk_async.call_resumed_after_other_moves']
+                                             if interleaved else []),
+                   sample={'check': 'c20.walk_async', 'moves': applied[:30], 'bits': bits})
+        # finish what is suspended, then the obligations are judged once more
+        for src in sorted(env.susp):
+            if env.error:
+                break
+            env.apply(('resume', src))
+        if env.error:
+            msg, sig = env.error
+            raise Violation(f'(notify suspends where bits {bits} say) {msg}; trace={applied}', sig)
+    return body
+
+
 def run(ctx):
+    hyp_run(ctx, 'c20.walk_async',
+            st.tuples(st.lists(st.integers(0, 11), min_size=8, max_size=60),
+                      st.lists(st.sampled_from([1, 1, 0]), min_size=1, max_size=8)).map(list),
+            walk_async_body(ctx), ctx.pick(300, 20000), frac=0.15)
     hyp_run(ctx, 'c20.walk',
             st.tuples(st.booleans(), st.lists(st.integers(0, 11), min_size=5, max_size=60)
                       ).map(list),
@@ -478,6 +582,13 @@ def run(ctx):
 
 
 def replay(ctx, check, case):
+    if check == 'c20.walk_async':
+        env, _ = run_trace(case[0], False, suspend_bits=case[1])
+        for src in sorted(env.susp):
+            if env.error:
+                break
+            env.apply(('resume', src))
+        return env.error
     if check == 'c20.walk':
         env, _ = run_trace(case[1], case[0])
     else:
